@@ -42,7 +42,10 @@ PRE = "from vmod import V\n"
 # (label, text) ; {M} is the module's own dotted name
 LOCAL = [
     ("def-x", "def x():\n    '''doc x'''"), ("class-y", "class y:\n    '''doc y'''\n    def m(self, p=1): ...\n    k = 1"), ("val-x", "x = V('{M}:x')"), ("val-y", "y = V('{M}:y')"), ("val-_p", "_p = V('{M}:_p')"),
-    ("mod-alias-vm", "import vmod as vm"),  # a name bound to a MODULE: carried by wildcard imports like any other public name, through any number of levels
+    ("mod-alias-vm", "import vmod as vm"),
+    # the optional-dependency idiom: the import succeeds, the fallback assignment in the `except` / `else` clause never runs
+    ("try-import-fallback", "try:\n    from vmod import V as VF\n    import vmod as vf_mod\nexcept ImportError:\n    VF = None\n    vf_mod = None"),
+    ("if-import-else", "if True:\n    from vmod import V as VG\nelse:\n    VG = None"),  # a name bound to a MODULE: carried by wildcard imports like any other public name, through any number of levels
 ]
 ALLS = [("all-x", "__all__ = ['x']"), ("all-y", "__all__ = ['y']"), ("all-x-_p", "__all__ = ['x', '_p']"), ("all-empty", "__all__ = []"),
         ("all=all+y", "__all__ = __all__ + ['y']"), ("all=[*all,_p]", "__all__ = [*__all__, '_p']")]
